@@ -25,7 +25,7 @@ macro_rules! bell_shape {
                 }
             } else {
                 assert!(fp.mant >> 63 == 1, "C11 declined estimate is normalised");
-                let unb = fp.exp as i64 + 32768;
+                let unb = fp.exp as i64 - <$t as Float>::INVALID_FP as i64;
                 assert!(unb >= -64 && unb <= 2200, "C11 declined estimate exponent un-biases into the slow path's range");
                 assert!(num.mantissa != 0 && num.exponent > -0x1000 && num.exponent < 0x1000);
             }
@@ -259,7 +259,7 @@ macro_rules! bell_accept {
                     let est = AR_FP;
                     assert!(est.0 >> 63 == 1 && est.1 >= -64, "C11 estimate normalised, at most 64 bits below the subnormals");
                     if !acc {
-                        assert!(fp.mant == est.0 && fp.exp == est.1 - 32768, "C11 rejected estimate returned un-rounded, biased invalid");
+                        assert!(fp.mant == est.0 && fp.exp == est.1 + <$t as Float>::INVALID_FP, "C11 rejected estimate returned un-rounded, biased invalid");
                     } else if est.1 == -64 {
                         assert!(fp.mant == 0 && fp.exp == 0, "C07 a full 64 bits below the smallest subnormal: +0.0");
                     } else {
